@@ -127,24 +127,47 @@ func c16Barriers(p *load.Program, r *core.Report) {
 	touches := func(f *ssa.Function) bool {
 		t := false
 		eachInstr(f, func(in ssa.Instruction) {
+			// only real slices count: a slice of a local fixed-size array (a hash sum, a read buffer) is
+			// bounded by construction
+			isSlice := func(t types.Type) bool {
+				_, ok := t.Underlying().(*types.Slice)
+				return ok && isByteSlice(t)
+			}
 			switch x := in.(type) {
 			case *ssa.IndexAddr:
-				if isByteSlice(x.X.Type()) {
+				if isSlice(x.X.Type()) {
 					t = true
 				}
 			case *ssa.Slice:
-				if isByteSlice(x.X.Type()) {
+				if isSlice(x.X.Type()) {
 					t = true
 				}
 			}
 		})
-		return t
+		if !t {
+			return false
+		}
+		// received bytes enter a function through a []byte / *lib.Buffer parameter or a Read call;
+		// a function that only indexes a buffer it builds itself (frame/handshake writers) is not concerned
+		for _, pa := range f.Params {
+			if isByteSlice(pa.Type()) || namedOf(pa.Type()) == "lib.Buffer" {
+				return true
+			}
+		}
+		reads := false
+		eachInstr(f, func(in ssa.Instruction) {
+			if callsNamed(in, "Read", "ReadDataFrom", "ReadFull", "ReadAtLeast") {
+				reads = true
+			}
+		})
+		return reads
 	}
 	proved := map[string]bool{}
 	for _, n := range c16ProvedFuncs {
 		proved[n] = true
 	}
 	sort.Slice(entries, func(i, j int) bool { return entries[i].String() < entries[j].String() })
+	cg := p.CallGraph()
 	for _, e := range entries {
 		fn := fname(e)
 		key := "C16.B1|go|" + fn
@@ -179,12 +202,24 @@ func c16Barriers(p *load.Program, r *core.Report) {
 					if cc == nil {
 						return
 					}
-					sf := staticCallee(cc)
-					if sf == nil || !inModule(sf) || seen[sf] {
-						return
+					var callees []*ssa.Function
+					if sf := staticCallee(cc); sf != nil {
+						callees = append(callees, sf)
+					} else if node := cg.Nodes[g]; node != nil {
+						// dynamic call: the callees the VTA call graph allows at this site
+						for _, e := range node.Out {
+							if e.Site == in.(ssa.CallInstruction) {
+								callees = append(callees, e.Callee.Func)
+							}
+						}
 					}
-					seen[sf] = true
-					queue = append(queue, sf)
+					for _, sf := range callees {
+						if sf == nil || !inModule(sf) || seen[sf] {
+							continue
+						}
+						seen[sf] = true
+						queue = append(queue, sf)
+					}
 				})
 			}
 		}
